@@ -17,7 +17,13 @@ Inductive c19case :=
 | CTokens (secs : list secret) (probes : list (nat * nat))
 (* several connections in a row; nonces = the challenges the implementation sent, renamed by first
    occurrence (an input of the model, and the first part of the observation) *)
-| CSession (nonces : list N) (conns : list sconn).
+| CSession (nonces : list N) (conns : list sconn)
+(* the token table together with the database behind it: default rooms, restarts *)
+| CInvDb (app : N) (me : secret) (me_key : key) (ops : list dop)
+(* connections handed to a running peer connection service; circuit = what the connection announces
+   (endpoint ids), tt = the token type the service finds for it, r = what the remote answers to the
+   identity challenge.  The remote asks for the room list while its proof is pending and again after *)
+| CCircuit (local_key : key) (conns : list (N * ttype * remote)).
 
 (* ---------------------------------------------------------------- handshake *)
 Definition result_code (r : result) : Z := match r with ROkFalse => 0 | ROkTrue => 1 | RErr => 2 end.
@@ -90,12 +96,31 @@ Fixpoint run_conns (nonces : list N) (all : list sconn) (i : nat) (cs : list sco
   | c :: r => let x := conn_result nonces all i c in result_code (fst x) :: bound_of (snd x) :: run_conns nonces all (S i) r
   end.
 
+Fixpoint run_dops (me_key : key) (s : sys) (ops : list dop) : list Z :=
+  match ops with
+  | [] => []
+  | o :: r => let '(s', a, b) := dstep me_key s o in zn a :: zn b :: run_dops me_key s' r
+  end.
+
+(* one connection at the service level: [served while the proof is pending; event; served afterwards].
+   InboundQueryService answers RoomList when the key holder of THIS connection is set and the
+   connection is ready; the holder is created empty for every connection *)
+Definition serve_conn (local_key : key) (x : N * ttype * remote) : list Z :=
+  let '(_, t, r) := x in
+  let res := init_connection 0 local_key t r true in
+  let es := snd res in
+  [0;
+   match events_of es with e :: _ => e | [] => -1 end;
+   zb (match fst res with ROkTrue => true | _ => false end && ready_of es && negb (Z.eqb (bound_of es) (-1)))].
+
 Definition run_C19 (c : c19case) : list Z :=
   match c with
   | CHandshake ch lk t r ev => obs_handshake (init_connection ch lk t r ev)
   | CInvites app me mk ops => run_ops 1 (init_pm app me mk) ops
   | CTokens secs probes => match all_some (map (probe_token secs) probes) with Some ts => eq_matrix ts | None => [] end
   | CSession nonces conns => map zn nonces ++ run_conns nonces conns 0 conns
+  | CInvDb app me mk ops => run_dops mk (init_sys app me mk) ops
+  | CCircuit lk conns => flat_map (serve_conn lk) conns
   end.
 
 (* ================================================================ the property's own oracle *)
@@ -238,21 +263,78 @@ Definition spec_session (conns : list sconn) (obs : list Z) : bool :=
   let ns := map Z.to_N (firstn n obs) in
   Nat.eqb (length ns) n && nodup_n ns && spec_conns ns conns 0 conns (skipn n obs).
 
+(* the same reference machine for histories with restarts: a restart changes nothing to what is
+   pending — an invitation is consumed once, across restarts too *)
+Definition dop_ok (app : N) (pending : list N) (o : dop) (a b : Z) : bool :=
+  match o with
+  | DAccept bs => if Z.eqb a 1 then match bs with InviteFor _ app' _ => N.eqb app' app | Garbage => false end else true
+  | DLookup tk k =>
+      (if Z.eqb a 1 then Z.eqb b (zn k) else true) &&
+      match tk with TkInvite inv => if mem_n inv pending then true else Z.eqb a 0 | _ => true end
+  | DConsume tk p =>
+      match tk with TkInvite inv => if mem_n inv pending then true else Z.eqb a 0 && Z.eqb b 0 | _ => true end
+  | _ => true
+  end.
+Definition dpending_after (pending : list N) (o : dop) (a b : Z) : list N :=
+  match o with
+  | DCreate _ => Z.to_N b :: pending
+  | DAccept (InviteFor inv _ _) => if Z.eqb a 1 then inv :: pending else pending
+  | DConsume (TkInvite inv) _ => if Z.eqb b 1 then drop_n inv pending else pending
+  | _ => pending
+  end.
+Fixpoint spec_dops (app : N) (pending : list N) (ops : list dop) (obs : list Z) : bool :=
+  match ops, obs with
+  | [], [] => true
+  | o :: r, a :: b :: obs' => dop_ok app pending o a b && spec_dops app (dpending_after pending o a b) r obs'
+  | _, _ => false
+  end.
+(* class 4: an owned invitation whose default room cannot be granted is presented again before a
+   restart (created invitations are ranked 1, 2, .. in creation order) *)
+Fixpoint bad_reuse (next : N) (bad used : list N) (ops : list dop) : bool :=
+  match ops with
+  | [] => false
+  | DCreate g :: r => bad_reuse (N.succ next) (if N.eqb g 2 then next :: bad else bad) used r
+  | DConsume (TkInvite inv) _ :: r =>
+      if mem_n inv bad then (if mem_n inv used then true else bad_reuse next bad (inv :: used) r)
+      else bad_reuse next bad used r
+  | DLookup (TkInvite inv) _ :: r =>
+      if mem_n inv bad && mem_n inv used then true else bad_reuse next bad used r
+  | DRestart :: r => bad_reuse next bad [] r
+  | _ :: r => bad_reuse next bad used r
+  end.
+
+(* a connection is served only after ITS OWN proof: never while the proof is pending, and afterwards
+   only if the remote was entitled on this connection — whatever circuit it announces *)
+Fixpoint spec_circuit (conns : list (N * ttype * remote)) (obs : list Z) : bool :=
+  match conns, obs with
+  | [], [] => true
+  | (_, t, r) :: cs, before :: _ :: after :: obs' =>
+      Z.eqb before 0 &&
+      (if Z.eqb after 0 then true else match entitled 0 t r with Some _ => true | None => false end) &&
+      spec_circuit cs obs'
+  | _, _ => false
+  end.
+
 Definition spec_C19 (c : c19case) (obs : list Z) : bool :=
   match c with
   | CHandshake ch _ t r _ => spec_handshake ch t r obs
   | CInvites app _ _ ops => spec_invites app ops obs
   | CTokens secs probes => spec_tokens secs probes obs
   | CSession _ conns => spec_session conns obs
+  | CInvDb app _ _ ops => spec_dops app [] ops obs
+  | CCircuit _ conns => spec_circuit conns obs
   end.
 
 (* known-finding classes (known_findings.d/C19.json):
    1  (fixed 2163820) an invitation presented a second time was accepted again
    2  two different secrets with the same x25519 public key (they differ only in bits the scalar
       clamping ignores) ask for each other's token
-   3  (fixed 1e2cdf6) an invitation accepted twice was registered twice and consumed twice *)
+   3  (fixed 1e2cdf6) an invitation accepted twice was registered twice and consumed twice
+   4  an owned invitation whose default room cannot be granted when it is used stays in the in-memory
+      table (invite_accepted returns before removing it) and is presented again before a restart *)
 Definition known_C19 (c : c19case) : list Z :=
   match c with
+  | CInvDb _ _ _ ops => if bad_reuse 1 [] [] ops then [4] else []
   | CTokens secs probes =>
       if existsb (fun p => match nth_error secs (fst p), nth_error secs (snd p) with
                            | Some a, Some b => N.eqb (s_pub a) (s_pub b) && negb (N.eqb (s_bytes a) (s_bytes b))
